@@ -4,7 +4,10 @@ import json
 import os
 
 V = os.path.dirname(os.path.dirname(os.path.abspath(__file__)))
-meta = json.load(open(os.path.join(V, "checks", "meta.json")))
+meta = {}
+for f in sorted(os.listdir(os.path.join(V, "checks", "meta"))):
+    if f.endswith(".json"):
+        meta[f[:-5]] = json.load(open(os.path.join(V, "checks", "meta", f)))
 props = [json.loads(l) for l in open(os.path.join(V, "properties.jsonl"))]
 checks = []
 na = []
